@@ -569,6 +569,24 @@ def run(res, tier, seed):
     sm = gen_solve_models(rng, 140 if quick else 1600, res)
     run_stream(res, "solve", sm, rng, 3, oracle_solve, term_solve, SOLVE_T, "check_solve")
     cm = gen_select_models(rng, 90 if quick else 1000, res)
+    # configurators over ONE item (any number of helper columns): the smallest answer dictionaries
+    srng = random.Random(seed * 7949 + 15)
+    for _ in range(8 if quick else 80):
+        x = srng.choice(["x", "item", "0"])
+        lf = lambda: {"k": "str", "id": x}
+        rules = [srng.choice([{"k": "Any", "ch": [lf()], "id": srng.choice(["R", None])}, {"k": "AtLeast", "v": 1, "s": None, "ch": [lf()], "id": "R"},
+                              {"k": "All", "ch": [{"k": "Any", "ch": [lf()], "id": "In"}], "id": srng.choice(["R", None])}, {"k": "AtMost", "v": 1, "ch": [lf()], "id": "R"}])]
+        if srng.random() < 0.4:
+            rules.append({"k": "Not", "ch": [{"k": "AtLeast", "v": 2, "s": None, "ch": [lf()], "id": "Two"}], "id": None})
+        ast1 = {"k": "Stingy", "ch": rules, "id": srng.choice(["cfg", None])}
+        try:
+            c1 = build(ast1)
+            if c1.errors() or not plain(c1):
+                continue
+            P1 = c1.ge_polyhedron
+            cm.append((ast1, c1, P1, columns_of(c1, list(P1.A.variables)))); res.count("single_item_configurators")
+        except Exception as e:
+            res.count("single_item_build_error:" + type(e).__name__)
     run_stream(res, "select", cm, rng, 3, oracle_select, term_select, None, None)
     run_shared(res, cm, random.Random(seed * 7919 + 15))
     run_shared_twin(res, random.Random(seed * 7927 + 15), 40 if quick else 400)
